@@ -1,6 +1,26 @@
-"""hand-written programs pinning documented evaluation rules at their edges (C04)"""
-import fpy2 as fp
+"""hand-written programs pinning documented evaluation rules at their edges (C04)
 
+Every function of ALL is run on the real interpreter and — translated from THIS SOURCE TEXT by harness/c04front.py —
+on the Lean evaluator.  KINDS gives the argument kinds the harness draws inputs for
+(R real, N small number, B bool, L list, LL nested list, P pair, C context); INPUTS adds fixed argument tuples (source text).
+"""
+import fpy2 as fp
+from fractions import Fraction
+
+KINDS = {}
+INPUTS = {}
+ALL = []
+
+def case(*kinds, inputs=None):
+    def reg(fn):
+        ALL.append(fn); KINDS[fn.name] = list(kinds)
+        if inputs: INPUTS[fn.name] = inputs
+        return fn
+    return reg
+
+# ------------------------------------------------------------------------------------------------ contexts
+
+@case('R', 'N')
 @fp.fpy
 def dyn_ctx_positional(x: fp.Real, p: fp.Real):
     with fp.MPFloatContext(3, fp.RM.RNE):
@@ -9,6 +29,7 @@ def dyn_ctx_positional(x: fp.Real, p: fp.Real):
         z = x + 0.1
     return (y, z)
 
+@case('R', 'N')
 @fp.fpy
 def dyn_ctx_keyword(x: fp.Real, p: fp.Real):
     with fp.MPFloatContext(3, fp.RM.RNE):
@@ -17,6 +38,7 @@ def dyn_ctx_keyword(x: fp.Real, p: fp.Real):
         z = x / 3
     return (y, z)
 
+@case('R', 'N')
 @fp.fpy
 def dyn_ctx_ieee(x: fp.Real, es: fp.Real):
     with fp.MPFloatContext(2, fp.RM.RTZ):
@@ -24,6 +46,7 @@ def dyn_ctx_ieee(x: fp.Real, es: fp.Real):
             y = x * 1.1
     return y
 
+@case('R', 'N')
 @fp.fpy
 def dyn_ctx_fixed(x: fp.Real, n: fp.Real):
     with fp.MPFloatContext(2, fp.RM.RTZ):
@@ -31,6 +54,196 @@ def dyn_ctx_fixed(x: fp.Real, n: fp.Real):
             y = x * 1.1
     return y
 
+@case('R', 'N')
+@fp.fpy
+def dyn_ctx_all_keywords(x: fp.Real, n: fp.Real):
+    # no positional argument at all: the constructor expression is still evaluated under the real context
+    with fp.MPFloatContext(1, fp.RM.RTZ):
+        with fp.MPSFloatContext(pmax=0.1 * 30 + n, emin=0 - n, rm=fp.RM.RAZ):
+            y = x / 3
+        with fp.FixedContext(signed=True, scale=0 - (1 / 3) * 9, nbits=n + 6, rm=fp.RM.RNA, overflow=fp.OV.SATURATE):
+            z = x / 3
+        w = x / 3
+    return (y, z, w)
+
+@case('R', 'R')
+@fp.fpy
+def ctx_sequential_and_nested(x: fp.Real, y: fp.Real):
+    a = x * y
+    with fp.IEEEContext(5, 16, fp.RM.RTZ):
+        b = x * y
+        with fp.MPFloatContext(2, fp.RM.RAZ):
+            c = x * y
+            with fp.REAL:
+                d = x * y
+            e = x * y
+        f = x * y
+    with fp.FixedContext(True, -3, 12, fp.RM.RNE, fp.OV.SATURATE):
+        g = x * y
+    h = x * y
+    return (a, b, c, d, e, f, g, h)
+
+@case('R', 'L')
+@fp.fpy
+def ctx_in_loops(x: fp.Real, xs: list[fp.Real]):
+    acc = 0
+    for e in xs:
+        with fp.MPFloatContext(3, fp.RM.RTP):
+            acc = acc + e * x
+        acc = acc + e * x
+    k = 0
+    while k < 2:
+        with fp.MPFloatContext(2, fp.RM.RTN):
+            acc = acc + 0.1
+        with fp.REAL:
+            k = k + 1
+    return acc
+
+@fp.fpy(ctx=fp.MPFloatContext(3, fp.RM.RTZ))
+def _declared3(x):
+    return x / 3
+
+@fp.fpy
+def _inherits(x):
+    return x / 3
+
+@fp.fpy(ctx=fp.IEEEContext(4, 8, fp.RM.RTP))
+def _declared_calls_inherits(x):
+    a = _inherits(x)
+    with fp.MPFloatContext(2, fp.RM.RTN):
+        b = _inherits(x)
+        c = _declared3(x)
+    return (a, b, c, x / 3)
+
+@case('R')
+@fp.fpy
+def callee_contexts(x: fp.Real):
+    with fp.MPFloatContext(5, fp.RM.RAZ):
+        a = _declared3(x)
+        b = _inherits(x)
+        c = _declared_calls_inherits(x)
+        d = x / 3
+    e = _inherits(x)
+    return (a, b, c, d, e)
+
+@fp.fpy
+def _callee_with(x):
+    with fp.MPFloatContext(2, fp.RM.RTZ):
+        y = x / 3
+    return (y, x / 3)
+
+@case('R')
+@fp.fpy
+def callee_with_does_not_leak(x: fp.Real):
+    with fp.MPFloatContext(6, fp.RM.RNE):
+        a = _callee_with(x)
+        b = x / 3
+    return (a, b)
+
+@case('R', 'B')
+@fp.fpy
+def ctx_as_value(x: fp.Real, b: bool):
+    with fp.MPFloatContext(3, fp.RM.RNE) as c1:
+        y = x / 3
+    c2 = fp.IEEEContext(5, 16, fp.RM.RTZ)
+    cs = (c1, c2)
+    k, _ = cs
+    with (c1 if b else c2) as c3:
+        z = x / 3
+        with c2:
+            w = x / 3
+    with k:
+        v = x / 3
+    with c3:
+        u = x / 3
+    return (y, z, w, v, u)
+
+@fp.fpy
+def _ctx_param_helper(x, c):
+    with c:
+        r = x * 1.1
+    return r
+
+@case('R', 'C')
+@fp.fpy
+def ctx_argument(x: fp.Real, c: fp.Context):
+    with c:
+        y = x / 3 + 0.1
+    return (y, x / 3 + 0.1, _ctx_param_helper(x, c), _ctx_param_helper(x, fp.MPFloatContext(2, fp.RM.RAZ)))
+
+GC_NARROW = fp.MPFloatContext(3, fp.RM.RTP)
+GP = 4
+
+@case('R')
+@fp.fpy
+def ctx_free_variable(x: fp.Real):
+    with GC_NARROW:
+        y = x / 3
+    with fp.MPFloatContext(GP, fp.RM.RTZ):
+        z = x / 3
+    with fp.MPFloatContext(GP + 1, fp.RM.RTZ):
+        w = x / 3
+    return (y, z, w)
+
+@case('R')
+@fp.fpy
+def ctx_all_families(x: fp.Real):
+    with fp.IEEEContext(es=5, nbits=16, rm=fp.RM.RTZ):
+        a = x * 0.1
+    with fp.EFloatContext(4, 8, False, fp.EFloatNanKind.MAX_VAL, eoffset=1):
+        b = x * 0.1
+    with fp.MPBFloatContext(4, -5, 240, fp.RM.RNE, fp.OV.SATURATE):
+        c = x * 1000
+    with fp.FixedContext(True, -2, 8, overflow=fp.OV.SATURATE):
+        d = x * 1000
+    with fp.SMFixedContext(-1, 6, overflow=fp.OV.SATURATE):
+        e = x * 3.3
+    with fp.MPBFixedContext(-3, 100, fp.RM.RTN, fp.OV.SATURATE):
+        f = x * 3.3
+    with fp.MPSFloatContext(3, -2):
+        g = x * 0.01
+    with fp.MPFixedContext(-2, enable_nan=True, enable_inf=True):
+        h = x / 0
+    with fp.FP16:
+        i = x * 0.1
+    with fp.INTEGER:
+        j = x * 3.3
+    with fp.UINT8:
+        k = x * 3.3
+    return (a, b, c, d, e, f, g, h, i, j, k)
+
+@case('R', 'N')
+@fp.fpy
+def ctx_constructor_errors(x: fp.Real, p: fp.Real):
+    # argument conversion of a constructor: integer expected, finite dyadic expected, unknown values
+    with fp.MPFloatContext(p):
+        y = x * 0.1
+    with fp.IEEEContext(p, 2 * p + 1):
+        z = x * 0.1
+    with fp.FixedContext(True, 0 - p, p):
+        w = x * 0.1
+    return (y, z, w)
+
+class ScaledHalf(fp.IEEEContext):
+    """a user context whose constructor takes a `float` and a `bool` besides integers (constructor-argument conversion)"""
+    def __init__(self, es: int, nbits: int, bias: float = 0.0, toward_zero: bool = False):
+        super().__init__(es, nbits, fp.RM.RTZ if toward_zero else (fp.RM.RNE if bias == 0.5 else fp.RM.RAZ))
+        self.bias = bias
+
+@case('R')
+@fp.fpy
+def ctx_user_class(x: fp.Real):
+    with ScaledHalf(5, 16, 0.5):
+        a = x / 3
+    with ScaledHalf(5, 16, bias=0.25, toward_zero=True):
+        b = x / 3
+    with ScaledHalf(4, 8):
+        c = x / 3
+    return (a, b, c)
+
+# ------------------------------------------------------------------------------------------------ lists, sharing, iteration
+
+@case('L')
 @fp.fpy
 def inplace_scan_enumerate(xs: list[fp.Real]):
     for i, x in enumerate(xs):
@@ -38,6 +251,7 @@ def inplace_scan_enumerate(xs: list[fp.Real]):
             xs[i + 1] = xs[i + 1] + x
     return xs
 
+@case('L')
 @fp.fpy
 def inplace_scan_zip(xs: list[fp.Real]):
     for a, b in zip(xs, xs[1:]):
@@ -45,12 +259,38 @@ def inplace_scan_zip(xs: list[fp.Real]):
             xs[1] = a + b
     return xs
 
+@case('L')
+@fp.fpy
+def inplace_scan_plain(xs: list[fp.Real]):
+    # a plain `for x in xs` walks the LIVE list (an index loop): writes ahead of the cursor are seen
+    i = 0
+    for x in xs:
+        if i + 1 < len(xs):
+            xs[i + 1] = xs[i + 1] + x
+        with fp.REAL:
+            i = i + 1
+    return xs
+
+@fp.fpy
+def _bump_next(xs, i):
+    if i + 1 < len(xs):
+        xs[i + 1] = xs[i + 1] * 2
+    return 0
+
+@case('L')
+@fp.fpy
+def inplace_scan_comprehension(xs: list[fp.Real]):
+    ys = [_bump_next(xs, i) + x for i, x in enumerate(xs)]
+    zs = [_bump_next(xs, 0) + x for x in xs]
+    return (xs, ys, zs)
+
 @fp.fpy
 def bump_rest(xs: list[fp.Real], i: fp.Real):
     if i + 1 < len(xs):
         xs[i + 1] = xs[i + 1] * 2
     return 0
 
+@case('L')
 @fp.fpy
 def zip_mutating_callee(xs: list[fp.Real]):
     acc = 0
@@ -60,20 +300,333 @@ def zip_mutating_callee(xs: list[fp.Real]):
     return (acc, xs)
 
 @fp.fpy
-def neg_abs_narrow_range(a: fp.Real):
-    with fp.IEEEContext(8, 16, fp.RM.RNE):
-        b = a * 1
-    with fp.IEEEContext(5, 16, fp.RM.RNE):
-        c = -b
-        d = abs(b)
-    return (b, c, d)
+def _identity_list(xs):
+    return xs
 
+@fp.fpy
+def _fresh_copy(xs):
+    return xs[:]
+
+@case('L', 'R')
+@fp.fpy
+def aliasing(xs: list[fp.Real], v: fp.Real):
+    ys = xs
+    zs = xs[:]
+    ws = _identity_list(xs)
+    us = _fresh_copy(xs)
+    t = (xs, 1)
+    ts, _ = t
+    box = [xs, zs]
+    cs = [e for e in xs]
+    if len(xs) > 0:
+        ws[0] = v
+        zs[0] = v + 1
+        us[0] = v + 2
+        ts[len(ts) - 1] = v + 3
+        box[0][0] = box[0][0] + 4
+        box[1][0] = box[1][0] + 5
+        cs[0] = v + 6
+    return (xs, ys, zs, ws, us, ts, box, cs)
+
+@case('LL', 'R')
+@fp.fpy
+def nested_sharing(m: list[list[fp.Real]], v: fp.Real):
+    outer = m[:]            # fresh outer cells, the SAME rows
+    row = m[0]
+    rows = [r for r in m]
+    if len(m[0]) > 0:
+        outer[0][0] = v
+        rows[len(rows) - 1][0] = rows[len(rows) - 1][0] + 1
+    outer[0] = [v, v]       # replaces a cell of the copy only
+    return (m, outer, row, rows)
+
+@case('LL', 'N', 'N', 'R')
+@fp.fpy
+def nested_index_assign(m: list[list[fp.Real]], i: fp.Real, j: fp.Real, v: fp.Real):
+    m[i][j] = v
+    return (m, m[i][j], m[i])
+
+@case('L', 'N', 'N')
+@fp.fpy
+def slices(xs: list[fp.Real], a: fp.Real, b: fp.Real):
+    return (xs[a:b], xs[a:], xs[:b], xs[:], xs[0:0], xs[len(xs):], xs[a:b][0:0])
+
+@case('L', 'N')
+@fp.fpy
+def indexing(xs: list[fp.Real], i: fp.Real):
+    return (xs[i], xs[i + 0.0], [xs, xs][0][i])
+
+@case('N', 'N', 'N')
+@fp.fpy
+def ranges(a: fp.Real, b: fp.Real, c: fp.Real):
+    r1 = range(a)
+    r2 = range(a, b)
+    r3 = range(a, b, c)
+    return (r1, r2, r3, [i * 0.5 for i in range(b, a, 0 - 1)], len(range(a)), sum(range(b)))
+
+@case('L', 'L')
+@fp.fpy
+def zips(xs: list[fp.Real], ys: list[fp.Real]):
+    z0 = zip()
+    z1 = zip(xs)
+    z2 = zip(xs, xs)
+    z3 = zip(xs, xs, [i for i in range(len(xs))])
+    z4 = zip(xs, ys)        # strict: unequal lengths are an error
+    return (z0, z1, z2, z3, z4, enumerate(ys), enumerate(zip(xs, xs)))
+
+@case('L', 'L')
+@fp.fpy
+def comprehensions(xs: list[fp.Real], ys: list[fp.Real]):
+    a = [x + y for x in xs for y in ys]
+    b = [(i, j, x) for i, x in enumerate(xs) for j in range(i)]
+    c = [[x * y for y in ys] for x in xs]
+    d = [p + q + r for (p, q), r in zip(zip(xs, xs), xs)]
+    e = [x for _ in ys for x in xs]
+    return (a, b, c, d, e)
+
+@case('R', 'L')
+@fp.fpy
+def comprehension_scopes(x: fp.Real, xs: list[fp.Real]):
+    # a comprehension target is local to the comprehension; a `for` target is not
+    ys = [x * 2 for x in xs]
+    a = x
+    for x in xs:
+        ys[0] = ys[0] + x
+    return (a, x, ys, [x for x in [x, x + 1]], x)
+
+@case('L')
+@fp.fpy
+def reductions(xs: list[fp.Real]):
+    with fp.MPFloatContext(3, fp.RM.RNE):
+        s = sum(xs)
+        t = sum([x for x in xs])
+    return (s, t, len(xs), any([x > 1 for x in xs]), all([x > 1 for x in xs]), any([]), all([]), sum([]), sum([xs[0]]) if len(xs) > 0 else 0)
+
+@case('L')
+@fp.fpy
+def minmax_list(xs: list[fp.Real]):
+    return (min(xs), max(xs), fp.fmin(xs), fp.fmax(xs), min([x for x in xs]), max(xs[0:1]))
+
+@case('R', 'R')
+@fp.fpy
+def minmax_zero_ties(v: fp.Real, a: fp.Real):
+    with fp.FP64:
+        z = a * 0.0
+        r = (max(v, 0.0), min(0.0, v), max(v, z), min(z, v), max(0.0, v, z), min(v, -z, 0.0), min(-0.0, 0), max(-0.0, 0), min(0, -0.0), max(0, -0.0),
+             min([0.0, -0.0]), max([-0.0, 0.0]), min([z, -z]), max([z, -z]), fp.fmin(-z, z), fp.fmax(-z, z))
+    return r
+
+@case('L')
 @fp.fpy
 def sum_unrounded_first(xs: list[fp.Real]):
     with fp.MPFloatContext(2, fp.RM.RNE):
         s = sum(xs)
     return s
 
+@case('K')
+@fp.fpy
+def empty_and_size(n: fp.Real):
+    xs = fp.empty(n)
+    for i in range(n):
+        xs[i] = i * 0.5
+    g = fp.empty(2, 3)
+    for i in range(2):
+        for j in range(3):
+            g[i][j] = i * 10 + j + n
+    row = g[1]
+    row[0] = -1
+    c = fp.empty(2, 2, 2)
+    for i in range(2):
+        for j in range(2):
+            for k in range(2):
+                c[i][j][k] = i * 4 + j * 2 + k
+    c[0][0] = c[1][1]           # rows can be re-pointed: now shared
+    c[1][1][0] = n
+    return (xs, row[2], len(g), len(g[0]), fp.size(xs, 0), g, c)
+
+# ------------------------------------------------------------------------------------------------ evaluation order, short circuits
+
+@fp.fpy
+def _tick(xs):
+    # returns the counter BEFORE the bump: evaluation order is observable
+    v = xs[0]
+    xs[0] = xs[0] + 1
+    return v
+
+@case('R')
+@fp.fpy
+def evaluation_order(x: fp.Real):
+    c = [0]
+    a = _tick(c) - _tick(c) * 2
+    b = (_tick(c), _tick(c), [_tick(c), _tick(c)])
+    d = fp.fma(_tick(c), _tick(c), _tick(c)) + fp.copysign(_tick(c), 0 - _tick(c))
+    e = min(_tick(c), _tick(c), _tick(c)) + max(_tick(c), _tick(c))
+    ys = [0, 0, 0, 0]
+    ys[_tick(c) - 16] = _tick(c)             # the right-hand side is evaluated before the subscript
+    zs = [10, 20, 30, 40, 50, 60, 70, 80, 90, 100, 110, 120, 130, 140, 150, 160, 170, 180, 190, 200, 210, 220, 230]
+    f = zs[_tick(c):_tick(c)]
+    g = _tick(c) if _tick(c) > 0 else _tick(c)
+    h = [_tick(c) + i for i in [_tick(c), _tick(c)]]
+    return (a, b, d, e, ys, f, g, h, c)
+
+@case('R', 'R')
+@fp.fpy
+def short_circuits(x: fp.Real, y: fp.Real):
+    c = [0]
+    a = (x > y) and (_tick(c) > 100)
+    b = (x > y) or (_tick(c) > 100)
+    d = x < _tick(c) + y < _tick(c) + 5 < _tick(c)        # each operand at most once, none after a failed test
+    e = x == _tick(c) != y == _tick(c)
+    f = (x > 0 or _tick(c) > 0) and (y > 0 or _tick(c) > 0) and not (x > y and _tick(c) > 0)
+    g = any([_tick(c) > 0 for _ in range(2)]) or _tick(c) > 0
+    return (a, b, d, e, f, g, c)
+
+@case('R', 'L')
+@fp.fpy
+def while_condition_effects(x: fp.Real, xs: list[fp.Real]):
+    c = [0]
+    n = 0
+    while _tick(c) < 3 and n < 10:
+        with fp.REAL:
+            n = n + 1
+    return (n, c)
+
+# ------------------------------------------------------------------------------------------------ tuples, equality
+
+@case('R', 'R')
+@fp.fpy
+def tuple_subscript(x: fp.Real, y: fp.Real):
+    with fp.MPFloatContext(4, fp.RM.RTZ):
+        t = (x + y, x * y)
+        u = (t, x)
+    return (t[0], t[1], u[0][1], u[1])
+
+@case('R', 'R')
+@fp.fpy
+def tuple_patterns(x: fp.Real, y: fp.Real):
+    a, b = x, y
+    a, b = b, a
+    (c, (d, _)), e = ((a, (b, x)), y)
+    t = (x, (y, [x, y]))
+    f, (g, hs) = t
+    hs[0] = 0
+    (i,) = (x,)
+    return (a, b, c, d, e, f, g, hs, t, i, fp.fst((x, y)), fp.snd((x, y)), fp.fst(fp.snd(t)))
+
+@case('R', 'R', 'L')
+@fp.fpy
+def structural_equality(x: fp.Real, y: fp.Real, xs: list[fp.Real]):
+    t = (x, [y, x], (x > y,))
+    return (t == t, t != t, xs == xs, xs == xs[:], [x] == [y], (x, y) == (y, x), (x,) != (x,), [] == [], [[x]] == [[x]], (x > y) == (y > x), [xs] == [xs, xs],
+            x == y, x != y, x == x, 0.0 == -0.0, [0.0] == [-0.0], 0.5 == fp.rational(1, 2))
+
+@case('R', 'L')
+@fp.fpy
+def equality_type_errors(x: fp.Real, xs: list[fp.Real]):
+    a = (x, x) == [x, x]
+    return a
+
+@case('R', 'L')
+@fp.fpy
+def ordering_type_errors(x: fp.Real, xs: list[fp.Real]):
+    return x < xs
+
+# ------------------------------------------------------------------------------------------------ literals
+
+@case()
+@fp.fpy
+def literal_spellings():
+    return (1, 1.0, 1e0, 10e-1, 0x10, 0b11, 0o17, 1_000, 1_0.5_0, .5, 5., 1e3, 1E3, 2.5e-1, 1e22, 5e-324, 0.1, 0.30000000000000004,
+            fp.hexfloat('0x1.8p1'), fp.hexfloat('-0x1.4p-3'), fp.hexfloat('0x0p0'), fp.hexfloat('-0x0p0'), fp.hexfloat('0xa.8p+4'), fp.hexfloat('0x.8p1'),
+            fp.rational(1, 3), fp.rational(-7, 4), fp.rational(6, 4), fp.rational(0, 5), fp.rational(2, -3), fp.rational(-2, -3),
+            fp.digits(3, -2, 10), fp.digits(5, 3, 2), fp.digits(-7, -3, 2), fp.digits(0, 4, 10), fp.digits(1, 2, 16), fp.digits(1, 0, 3),
+            fp.nan(), fp.inf(), -fp.inf(), True, False)
+
+@case()
+@fp.fpy
+def literal_signs():
+    return (-0, -0.0, -(0), -(-0.0), - 1.5, -1, +2, -(1), 0.0, 00.50, -(-3), - +4, -2.0, -1e3, -(-(-0)), +(-0), -(+0.0), -0.5e1, -2.5e-1, -fp.rational(0, 4),
+            -fp.rational(1, 2), -fp.digits(0, 1, 2), -fp.hexfloat('0x0p0'), -fp.hexfloat('-0x0p0'), -0x10, -(2 + 0), -255, -(255))
+
+@case('R')
+@fp.fpy
+def literals_are_exact(x: fp.Real):
+    with fp.MPFloatContext(2, fp.RM.RNE):
+        a = 0.1
+        b = -255
+        c = (0.1, [255, -0.3])
+        d = 0.1 + 0
+        e = -0.3
+        f = x
+        g = fp.rational(1, 3)
+        h = 255 if x > 0 else 0.7
+    return (a, b, c, d, e, f, g, h)
+
+# ------------------------------------------------------------------------------------------------ statements
+
+@case('R', 'R')
+@fp.fpy
+def augmented_assignments(x: fp.Real, y: fp.Real):
+    with fp.MPFloatContext(4, fp.RM.RNE):
+        x += y
+        x -= 1
+        x *= y
+        x /= 3
+        x %= 5
+        x **= 2
+        z: fp.Real = x
+        z += z
+    return (x, z)
+
+@case('R', 'L')
+@fp.fpy
+def statements_misc(x: fp.Real, xs: list[fp.Real]):
+    """a docstring is not a statement"""
+    pass
+    x + 1
+    _tick([x])
+    print(x, xs, True)
+    s = 'text'
+    n = None
+    print([s, x], (n, xs))
+    if x > 0:
+        pass
+    elif x > -1:
+        x = x + 1
+    elif x > -2:
+        x = x + 2
+    else:
+        pass
+    return (x, xs, s, (n, [s]))
+
+@case('R', 'L')
+@fp.fpy
+def assert_messages(x: fp.Real, xs: list[fp.Real]):
+    c = [0]
+    assert x < 1e20, "x must be small"
+    assert x > -1e20, _tick(c)           # the message is evaluated only when the test fails
+    assert _tick(c) < 1, xs[5]
+    assert x != 3
+    return (x, c)
+
+@case('R', 'L')
+@fp.fpy
+def early_returns(x: fp.Real, xs: list[fp.Real]):
+    with fp.MPFloatContext(2, fp.RM.RNE):
+        for e in xs:
+            with fp.MPFloatContext(5, fp.RM.RTZ):
+                if e > x:
+                    return e / 3
+        k = 0
+        while k < 3:
+            if x > k:
+                return x / 3
+            with fp.REAL:
+                k = k + 1
+        y = x * 1.1
+    return y * 1.1
+
+@case('R')
 @fp.fpy
 def early_return_in_with(x: fp.Real):
     with fp.MPFloatContext(2, fp.RM.RNE):
@@ -83,19 +636,388 @@ def early_return_in_with(x: fp.Real):
     z = y * 1.1
     return z
 
+@case('R')
 @fp.fpy
-def tuple_subscript(x: fp.Real, y: fp.Real):
-    with fp.MPFloatContext(4, fp.RM.RTZ):
-        t = (x + y, x * y)
-        u = (t, x)
-    return (t[0], t[1], u[0][1], u[1])
+def neg_abs_narrow_range(a: fp.Real):
+    with fp.IEEEContext(8, 16, fp.RM.RNE):
+        b = a * 1
+    with fp.IEEEContext(5, 16, fp.RM.RNE):
+        c = -b
+        d = abs(b)
+    return (b, c, d)
 
+# ------------------------------------------------------------------------------------------------ operators
+
+@case('R', 'R')
 @fp.fpy
-def minmax_zero_ties(v: fp.Real, a: fp.Real):
-    with fp.FP64:
-        z = a * 0.0
-        r = (max(v, 0.0), min(0.0, v), max(v, z), min(z, v), max(0.0, v, z), min(v, -z, 0.0))
+def operator_table(x: fp.Real, y: fp.Real):
+    with fp.MPFloatContext(5, fp.RM.RNE):
+        r = (x + y, x - y, x * y, x / y, x % y, x ** 2, x ** -1, fp.add(x, y), fp.sub(x, y), fp.mul(x, y), fp.div(x, y), fp.pow(x, 3),
+             fp.copysign(x, y), fp.fdim(x, y), fp.fmod(x, y), fp.remainder(x, y), fp.hypot(x, y), fp.fmin(x, y), fp.fmax(x, y), min(x, y), max(x, y),
+             fp.fma(x, y, x), -x, +x, abs(x), fp.fabs(x), fp.sqrt(x), fp.cbrt(x), fp.ceil(x), fp.floor(x), fp.trunc(x), fp.roundint(x), fp.nearbyint(x),
+             fp.round(x), fp.round_at(x, -1), fp.round_at(x, 1), fp.isnan(x), fp.isinf(x), fp.isfinite(x), fp.signbit(x),
+             x < y, x <= y, x > y, x >= y, x == y, x != y, not (x < y), x < y and y < 1, x < y or y < 1, x if x < y else y)
     return r
 
-ALL = [tuple_subscript, minmax_zero_ties, dyn_ctx_positional, dyn_ctx_keyword, dyn_ctx_ieee, dyn_ctx_fixed, inplace_scan_enumerate, inplace_scan_zip,
-       zip_mutating_callee, neg_abs_narrow_range, sum_unrounded_first, early_return_in_with]
+@case('R')
+@fp.fpy
+def casts(x: fp.Real):
+    with fp.IEEEContext(5, 16):
+        a = fp.round(x)
+        b = fp.cast(a)
+        c = fp.round_exact(a)
+        d = fp.cast(x)          # an error unless x is representable
+    return (a, b, c, d)
+
+# ------------------------------------------------------------------------------------------------ free variables, closures, primitives
+
+G_FLOAT = 2.5
+G_INT = 3
+G_FRAC = Fraction(1, 3)
+G_NEGZERO = -0.0
+G_BOOL = True
+G_LIST = [1.0, 2.0]
+G_NESTED = (1.0, [2.0, [3.0]])
+G_FLOATOBJ = fp.Float.from_float(0.1)
+G_TEXT = 'opaque'
+
+@fp.fpy
+def _captured_nested_helper(v):
+    _, (a, (bs,)) = (0, (0, ([0],)))
+    head, rest = G_NESTED
+    inner, deep = rest[0], rest[1]
+    rest[0] = rest[0] + v          # the list inside a captured TUPLE is a fresh copy at every activation too
+    deep[0] = deep[0] + v
+    return (G_NESTED, rest)
+
+@fp.fpy
+def _captured_list_helper(v):
+    G_LIST[0] = G_LIST[0] + v      # a captured list is a fresh copy at every activation
+    return G_LIST
+
+@case('R')
+@fp.fpy
+def free_variables(x: fp.Real):
+    G_LIST[1] = x
+    a = _captured_list_helper(x)
+    b = _captured_list_helper(x)
+    t = G_NESTED
+    n1 = _captured_nested_helper(x)
+    n2 = _captured_nested_helper(x)
+    with fp.MPFloatContext(3, fp.RM.RNE):
+        y = x * G_FLOAT + G_INT + G_FRAC + G_FLOATOBJ
+    s = G_TEXT
+    return (y, a, b, G_LIST, t, G_BOOL, G_NEGZERO, 1 / G_NEGZERO, n1, n2)
+
+def _factory():
+    K = 0.1
+    KL = [5.0, 6.0]
+    @fp.fpy
+    def closure(x):
+        KL[0] = KL[0] + x
+        return (x * K, KL)
+    return closure
+closure = _factory()
+case('R')(closure)
+
+@fp.fpy_primitive
+def prim_double(x: fp.Float, ctx: fp.Context) -> fp.Float:
+    import fpy2.ops as ops
+    return ops.mul(x, 2, ctx=ctx)
+
+@fp.fpy
+def prim_double_twin(x):
+    return x * 2
+
+@fp.fpy_primitive
+def prim_python_numbers(x: fp.Float) -> tuple[float, int, list[float]]:
+    return (3.25, 7, [0.5, 2])
+
+@fp.fpy
+def prim_python_numbers_twin(x):
+    return (3.25, 7, [0.5, 2])
+
+@fp.fpy_primitive
+def prim_takes_list(xs: list[fp.Float], ctx: fp.Context) -> fp.Float:
+    return ctx.round(len(xs))
+
+@fp.fpy
+def prim_takes_list_twin(xs):
+    return fp.round(len(xs))
+
+C04_TWINS = {'prim_double': 'prim_double_twin', 'prim_python_numbers': 'prim_python_numbers_twin', 'prim_takes_list': 'prim_takes_list_twin'}
+
+@case('R', 'L')
+@fp.fpy
+def primitives(x: fp.Real, xs: list[fp.Real]):
+    with fp.MPFloatContext(2, fp.RM.RNE):
+        a = prim_double(fp.round(x))
+        n = prim_takes_list(xs)
+    b = prim_double(fp.round(x))
+    c = prim_python_numbers(fp.round(x))
+    _, _, l = c
+    l[0] = x
+    return (a, b, c, n, prim_python_numbers(fp.round(x)))
+
+# ------------------------------------------------------------------------------------------------ typed arguments (annotations do not round)
+
+@case('R', 'R', 'R', 'L', 'P', 'B')
+@fp.fpy
+def typed_arguments(a: float, b: int, c: fp.Real, d: list[float], e: tuple[float, int], f: bool) -> tuple[float, int]:
+    with fp.MPFloatContext(3, fp.RM.RNE):
+        g = a + 0
+    return (a, b, c, d, e, f, g)
+
+# ------------------------------------------------------------------------------------------------ one construct per function (an error in one form must not hide the next)
+
+@case('L', 'N')
+@fp.fpy
+def slice_from(xs: list[fp.Real], a: fp.Real):
+    return xs[a:]
+
+@case('L', 'N')
+@fp.fpy
+def slice_to(xs: list[fp.Real], b: fp.Real):
+    return xs[:b]
+
+@case('L', 'N', 'N')
+@fp.fpy
+def slice_both(xs: list[fp.Real], a: fp.Real, b: fp.Real):
+    return xs[a:b]
+
+@case('L9', 'K')
+@fp.fpy
+def exact_indices(xs: list[fp.Real], n: fp.Real):
+    # enumerate / range / len produce EXACT integers whatever the active context
+    with fp.MPFloatContext(1, fp.RM.RNE):
+        a = [i for i, _ in enumerate(xs)]
+        b = [i for i in range(n + 7)]
+        c = [i for i in range(10, 0, -3)]
+        d = (len(xs), len(a))
+        e = [xs[i] for i, _ in enumerate(xs)]
+        s = 0
+        for i, x in enumerate(xs):
+            s = i
+    with fp.FixedContext(False, 1, 3, fp.RM.RTZ, fp.OV.SATURATE):
+        f = [j for j, _ in enumerate(xs)]
+        g = [k for k in range(len(xs))]
+    return (a, b, c, d, e, s, f, g)
+
+@case('R', 'R')
+@fp.fpy
+def minmax_displays(x: fp.Real, y: fp.Real):
+    return (min([x]), max([x]), min([x, y]), max([y, x]), min([x, y, x]), fp.fmin([x]), fp.fmax([y]), min(x, y), max(x, y))
+
+@case('L')
+@fp.fpy
+def for_sees_writes_ahead(xs: list[fp.Real]):
+    # a plain `for` walks the live list: an element rewritten before the cursor reaches it is seen with its new value
+    seen = [0 for _ in xs]
+    i = 0
+    for x in xs:
+        seen[i] = x
+        if len(xs) > 0:
+            xs[len(xs) - 1] = xs[len(xs) - 1] + 1
+        with fp.REAL:
+            i = i + 1
+    ys = xs
+    acc = 0
+    for y in ys:
+        if len(xs) > 1:
+            xs[1] = 100
+        acc = acc + y
+    return (seen, xs, acc)
+
+# ------------------------------------------------------------------------------------------------ index positions: literal vs variable vs expression
+
+@case('L', 'LL', 'N', inputs=[['[1.5, 2.5, 3.5]', '[[1.0, 2.0], [3.0, 4.0]]', k] for k in ['0', '1', '2', '3', '4', '5', '8', '11', '24', '2.5', '-1', '-2', '3.0', '7']])
+@fp.fpy
+def index_positions(xs: list[fp.Real], m: list[list[fp.Real]], k: fp.Real):
+    # FPy has no negative indices: a literal, a variable and an expression index behave alike, in reads AND writes
+    n = 0 - 1
+    if k == 0: r = xs[-1]
+    elif k == 1: r = xs[n]
+    elif k == 2: r = xs[0 - 1]
+    elif k == 3:
+        xs[-1] = 9
+        r = xs
+    elif k == 4:
+        m[-1][1] = 9
+        r = m
+    elif k == 5:
+        m[1][-1] = 9
+        r = m
+    elif k == 8: r = xs[:2][-1]
+    elif k == 11: r = m[-1][0]
+    elif k == 24: r = m[0][-2]
+    elif k == 2.5: r = xs[len(xs)]
+    elif k == -1: r = xs[-0]
+    elif k == -2: r = (xs[len(xs) - 1], xs[2.0], xs[fp.rational(4, 2)], xs[1e0])
+    elif k == 3.0: r = xs[1e22]
+    else:
+        xs[n] = 9
+        r = xs
+    return r
+
+GI_BIG = 2 ** 64 - 1
+GI_MOD = 2 ** 61 - 1
+GL_BIG = [2 ** 53 + 1, -(3 ** 40), 1]
+GT_BIG = (2 ** 70 + 1, [2 ** 64 - 1])
+
+@case('R', 'L', 'P')
+@fp.fpy
+def exact_integers(x: fp.Real, xs: list[fp.Real], t: tuple[fp.Real, fp.Real]):
+    # Python ints of any size are exact values: as arguments, as elements of list / tuple arguments, as captured globals
+    a, b = t
+    with fp.REAL:
+        r = (x + 0, x * 2 - x - x, a - b, GI_BIG + 1, GI_BIG % GI_MOD, GL_BIG[0] - 1, GT_BIG)
+    with fp.INTEGER:
+        s = (x * 1, sum(xs), GI_BIG - GI_MOD)
+    return (x, xs, t, r, s, GL_BIG, [e for e in xs])
+
+# ------------------------------------------------------------------------------------------------ more statements / contexts
+
+@case('R', 'L')
+@fp.fpy
+def effect_statements_run(x: fp.Real, xs: list[fp.Real]):
+    # an expression statement is evaluated (and may fail) although its value is discarded
+    with fp.FP32:
+        fp.round(x)
+        xs[2]
+        fp.round_exact(x)
+        y = x * x
+    return y
+
+@case('R', 'N')
+@fp.fpy
+def dyn_ctx_named(x: fp.Real, p: fp.Real):
+    with fp.MPFloatContext(1, fp.RM.RTZ):
+        with fp.MPFloatContext(0.1 * 30 + p, fp.RM.RNE) as c:
+            y = x / 3
+        with fp.IEEEContext(es=(1 / 3) * 9 + p, nbits=13 + 2 * p) as d:
+            z = x / 3
+        with c:
+            w = x / 3
+        with d:
+            v = x / 3
+    return (y, z, w, v)
+
+@case('R', 'R')
+@fp.fpy
+def syntax_zoo_undecidable(x: fp.Real, y: fp.Real):
+    # constructs the Lean model does not decide: the front ends are compared as text, the values by the dispatch oracle
+    a = (fp.sin(x), fp.cos(x), fp.tan(x), fp.asin(x), fp.acos(x), fp.atan(x), fp.sinh(x), fp.cosh(x), fp.tanh(x), fp.asinh(x), fp.acosh(x), fp.atanh(x))
+    b = (fp.exp(x), fp.exp2(x), fp.expm1(x), fp.log(x), fp.log2(x), fp.log10(x), fp.log1p(x), fp.erf(x), fp.erfc(x), fp.lgamma(x), fp.tgamma(x), fp.atan2(y, x))
+    c = (fp.const_pi(), fp.const_e(), fp.const_log2e(), fp.const_log10e(), fp.const_ln2(), fp.const_pi_2(), fp.const_pi_4(), fp.const_1_pi(), fp.const_2_pi(),
+         fp.const_2_sqrt_pi(), fp.const_sqrt2(), fp.const_sqrt1_2())
+    d = (x ** 0.5, x ** y, fp.pow(x, 0.5), 2 ** x, x ** 1.5, x ** -0.5, fp.isnormal(x), fp.logb(x), fp.dim([x, y]), fp.size([[x], [y]], 1))
+    return (a, b, c, d)
+
+# ------------------------------------------------------------------------------------------------ boundary values, arities
+
+@case('LB', 'B')
+@fp.fpy
+def bool_lists(bs: list[bool], b: bool):
+    return (any(bs), all(bs), [not c for c in bs], bs == [b], b, (b, [b]), any([b]) and all([c or b for c in bs]))
+
+@case('R', 'N', inputs=[['1.5', k] for k in ['0', '1', '2', '3']])
+@fp.fpy
+def call_arity_errors(x: fp.Real, k: fp.Real):
+    if k == 0: r = _inherits(x, x)
+    elif k == 1: r = _inherits()
+    elif k == 2: r = _ctx_param_helper(x)
+    else: r = _inherits(x)
+    return r
+
+@case('R', 'R', inputs=[['1.5'], ['1.5', '2.5', '3.5'], []])
+@fp.fpy
+def python_call_arity(x: fp.Real, y: fp.Real):
+    return x + y
+
+# ------------------------------------------------------------------------------------------------ ill-typed operands: the error KIND is part of the semantics
+
+@case('R', 'L', 'N', inputs=[['1.5', '[1.5, 2.5, -3]', k] for k in ['0', '1', '2', '3', '4', '5', '8', '11', '24', '2.5', '-1', '-2', '3.0', '7']])
+@fp.fpy
+def type_errors(x: fp.Real, xs: list[fp.Real], k: fp.Real):
+    # exactly one of these is selected by k; each must be refused with the documented kind
+    b = x > 0
+    if k == 0: r = xs[b]
+    elif k == 1: r = x[0:1]
+    elif k == 2: r = xs[b:]
+    elif k == 3: r = xs[:b]
+    elif k == 4: r = range(xs)
+    elif k == 5: r = range(0, b)
+    elif k == 7: r = range(b, 3)
+    elif k == 8: r = range(0, 3, xs)
+    elif k == 11: r = sum(x)
+    elif k == 24: r = sum([b, b])
+    elif k == 2.5: r = min(x)
+    elif k == -1: r = max(b)
+    elif k == -2: r = min(x, b)
+    elif k == 3.0: r = max([x, b])
+    else: r = 0
+    return r
+
+@case('R', 'L', 'N', inputs=[['1.5', '[1.5, 2.5, -3]', k] for k in ['0', '1', '2', '3', '4', '5', '8', '11', '24', '2.5', '-1', '-2', '3.0', '7']])
+@fp.fpy
+def type_errors2(x: fp.Real, xs: list[fp.Real], k: fp.Real):
+    b = x > 0
+    t = (x, x)
+    if k == 0: r = len(x)
+    elif k == 1: r = len(t)
+    elif k == 2: r = any(x)
+    elif k == 3: r = all([x, x])
+    elif k == 4: r = enumerate(x)
+    elif k == 5: r = x + xs
+    elif k == 8: r = xs[xs]
+    elif k == 11: r = xs < xs
+    elif k == 24: r = b <= x
+    elif k == 2.5: r = fp.fst((x, x, x))
+    elif k == -1: r = fp.snd((x,))
+    elif k == -2: r = fp.fma(x, xs, x)
+    elif k == 3.0: r = fp.isnan(xs)
+    else: r = 0
+    return r
+
+@case('R', 'N', inputs=[['1.5', k] for k in ['0', '1', '2', '3']])
+@fp.fpy
+def type_errors_context(x: fp.Real, k: fp.Real):
+    b = x > 0
+    if k == 0:
+        with fp.MPFloatContext(b):
+            r = x + 1
+    elif k == 1:
+        with x:
+            r = x + 1
+    elif k == 2:
+        with fp.IEEEContext(5, b):
+            r = x + 1
+    else:
+        r = 0
+    return r
+
+# ------------------------------------------------------------------------------------------------ known defects of the implementation (classified, see c04.classify)
+
+@case('R')
+@fp.fpy
+def long_literals(x: fp.Real):
+    # C04-F2: "numerical constants are interpreted as-is" — but the parser reads them through a Python float
+    with fp.REAL:
+        a = 1e23
+        b = 0.1000000000000000055511151231257827
+        c = 123456789012345678901234567890.5
+        d = 1.00000000000000000001
+    return (a, b, c, d, x)
+
+@case('L')
+@fp.fpy
+def comprehension_in_assert_message(xs: list[fp.Real]):
+    # C04-F3: the message is evaluated only when the test fails; the function cannot even be compiled
+    assert len(xs) >= 0, [x for x in xs]
+    return len(xs)
+
+@case('L', 'R')
+@fp.fpy
+def chain_in_comprehension_iterable(xs: list[fp.Real], a: fp.Real):
+    # C04-F4: the walrus that binds the middle operand of a chain is refused by Python inside a comprehension iterable
+    return [x for x in (xs if 0 <= a < 100 else [])]
